@@ -251,9 +251,10 @@ Definition smem (x : string) (l : list string) : bool := existsb (String.eqb x) 
 Definition ssubset (a b : list string) : bool := forallb (fun x => smem x b) a.
 Definition sminus (b a : list string) : list string := filter (fun x => negb (smem x a)) b.
 
-(* comparisons 'used up' by the blocking rule (set(br_cols).intersection(cc_cols)) *)
+(* comparisons 'used up' by the blocking rule: {c.lower() for c in br_cols}.intersection(
+   column_name.lower() for the comparison's columns)  (case-insensitive since fix cb4534c9) *)
 Definition deactivated (br_cols : list string) (c : mcmp) : bool :=
-  existsb (fun x => smem x br_cols) (mc_cols c).
+  existsb (fun x => smem (lower x) (map lower br_cols)) (mc_cols c).
 Definition active_cmps (br_cols : list string) (m : model) : list mcmp :=
   filter (fun c => negb (deactivated br_cols c)) (md_cmps m).
 
